@@ -8,7 +8,7 @@
 
 use crate::common::*;
 use cosmwasm_std::{coin, Addr, BankMsg, Coin, Uint128};
-use cw_multi_test::{App, BankSudo, Executor, SudoMsg};
+use cw_multi_test::{App, BankKeeper, BankSudo, Executor, SudoMsg};
 use rand::rngs::StdRng;
 use rand::{Rng, SeedableRng};
 use serde_json::{json, Value};
@@ -56,8 +56,10 @@ impl BankWorld {
     }
     /// Ok(true) success, Ok(false) error, Err = panic
     pub fn apply(&mut self, op: &Value, unit: u128) -> Result<bool, String> {
-        let from = self.addr(op["from"].as_str().unwrap());
-        let to = self.addr(op["to"].as_str().unwrap());
+        let (meta_denom, meta_tok) = (op["from"].as_str().unwrap().to_string(), op["to"].as_str().unwrap().to_string());
+        let is_meta = op["a"] == "setmeta";
+        let from = if is_meta { Addr::unchecked("") } else { self.addr(op["from"].as_str().unwrap()) };
+        let to = if is_meta { Addr::unchecked("") } else { self.addr(op["to"].as_str().unwrap()) };
         let coins = coins_of(&op["coins"], unit);
         let a = op["a"].as_str().unwrap().to_string();
         self.alt += 1;
@@ -76,6 +78,11 @@ impl BankWorld {
                 }
             }
             "burn" => app.execute(from, BankMsg::Burn { amount: coins }.into()).is_ok(),
+            "setmeta" => {
+                // (metadata is kept directly in the storage handed to set_denom_metadata, and the queries read it from
+                // the chain's root storage: the root storage it is)
+                BankKeeper::new().set_denom_metadata(app.storage_mut(), denom_name(&meta_denom), meta_of(&meta_tok)).is_ok()
+            }
             other => tool_error(&format!("unknown bank op {other}")),
         }))
         .map_err(|_| "panic".to_string())
@@ -156,6 +163,54 @@ impl BankWorld {
     }
 }
 
+/// the metadata stored for a token of the specification ("" = nothing stored = the default answer)
+fn meta_of(tok: &str) -> cosmwasm_std::DenomMetadata {
+    cosmwasm_std::DenomMetadata {
+        description: format!("description of {tok}"),
+        denom_units: vec![cosmwasm_std::DenomUnit { denom: tok.to_string(), exponent: 6, aliases: vec![format!("alias-{tok}")] }],
+        base: tok.to_string(),
+        display: tok.to_uppercase(),
+        name: tok.to_string(),
+        symbol: tok.to_uppercase(),
+        uri: String::new(),
+        uri_hash: String::new(),
+    }
+}
+
+impl BankWorld {
+    /// the DenomMetadata answer per denomination as a token ("" = default answer, "?" = anything else), checked against
+    /// AllDenomMetadata (exactly the denominations with stored metadata, in ascending order)
+    pub fn observe_meta(&mut self, denoms: &[String], found: &mut Vec<String>) -> BTreeMap<String, String> {
+        let mut out = BTreeMap::new();
+        let mut stored: Vec<cosmwasm_std::DenomMetadata> = vec![];
+        let mut sorted: Vec<&String> = denoms.iter().collect();
+        sorted.sort_by_key(|d| denom_name(d));
+        for d in sorted {
+            let m = self.app.wrap().query_denom_metadata(denom_name(d)).unwrap_or_else(|e| {
+                found.push(format!("DenomMetadata({d}) failed: {e}"));
+                cosmwasm_std::DenomMetadata::default()
+            });
+            let tok = if m == cosmwasm_std::DenomMetadata::default() {
+                String::new()
+            } else if m == meta_of(&m.name) {
+                stored.push(m.clone());
+                m.name.clone()
+            } else {
+                "?".to_string()
+            };
+            out.insert(d.clone(), tok);
+        }
+        let all = self.app.wrap().query_all_denom_metadata(cosmwasm_std::PageRequest { key: None, limit: 100, reverse: false }).map(|r| r.metadata).unwrap_or_else(|e| {
+            found.push(format!("AllDenomMetadata failed: {e}"));
+            vec![]
+        });
+        if all != stored {
+            found.push(format!("AllDenomMetadata lists {} entries, the single queries show {} stored", all.len(), stored.len()));
+        }
+        out
+    }
+}
+
 pub fn run_script(script: &Value, unit: u128, alt: u64) -> (Vec<String>, u64) {
     let mut found = vec![];
     let mut checks = 0;
@@ -191,6 +246,16 @@ pub fn run_script(script: &Value, unit: u128, alt: u64) -> (Vec<String>, u64) {
             if bal[a][d] != want {
                 found.push(format!("balance of {a} in {d} is {} units, specification says {}",
                     Uint128::new(bal[a][d]), Uint128::new(want)));
+            }
+        }
+    }
+    if let Some(ms) = script["meta"].as_array() {
+        let got = w.observe_meta(&denoms, &mut found);
+        for dv in ms {
+            let d = dv[0].as_str().unwrap();
+            checks += 1;
+            if got.get(d).map(|s| s.as_str()) != dv[1].as_str() {
+                found.push(format!("metadata of {d} is {:?}, specification says {}", got.get(d), dv[1]));
             }
         }
     }
@@ -256,12 +321,30 @@ pub fn drive(n: usize, len: usize, out: &str) -> ! {
         // amounts below 2^31 in the trace (TLC integers); the real execution is scaled by `unit`
         let unit = units(1 << 24)[run % 4];
         let mut w = BankWorld::new(rng.gen());
-        writeln!(f, "{}", json!({"ev":"reset","a":"reset","from":"","to":"","coins":[],"ok":"true","bal":[],"supply":[],"incons":[]})).unwrap();
+        writeln!(f, "{}", json!({"ev":"reset","a":"reset","from":"","to":"","coins":[],"ok":"true","bal":[],"supply":[],"meta":[],"incons":[]})).unwrap();
         events += 1;
         let mut minted: u64 = 0;
         for _ in 0..len {
             let c = rng.gen_range(0..100);
-            let a = if c < 25 { "mint" } else if c < 80 { "send" } else { "burn" };
+            let a = if c < 25 { "mint" } else if c < 75 { "send" } else if c < 93 { "burn" } else { "setmeta" };
+            if a == "setmeta" {
+                let mtok = ["m1", "m2", "m3"][rng.gen_range(0..3)];
+                let op = json!({"a": a, "from": denoms[rng.gen_range(0..3)], "to": mtok, "coins": []});
+                let res = w.apply(&op, unit);
+                let mut incons = vec![];
+                let (bal, sup) = w.observe(&accounts, &denoms, &mut incons);
+                let meta = w.observe_meta(&denoms, &mut incons);
+                let balj: Vec<Value> = accounts
+                    .iter()
+                    .map(|acc| json!([acc, denoms.iter().map(|d| json!([d, bal[acc][d] / unit, bal[acc][d] % unit])).collect::<Vec<_>>()]))
+                    .collect();
+                let supj: Vec<Value> = denoms.iter().map(|d| json!([d, sup[d] / unit, sup[d] % unit])).collect();
+                let metaj: Vec<Value> = denoms.iter().map(|d| json!([d, meta[d]])).collect();
+                writeln!(f, "{}", json!({"ev":"op","a":a,"from":op["from"],"to":op["to"],"coins":[],
+                    "ok": match res { Ok(true) => "true", Ok(false) => "false", Err(_) => "panic" },"bal":balj,"supply":supj,"meta":metaj,"incons":incons})).unwrap();
+                events += 1;
+                continue;
+            }
             let from = accounts[rng.gen_range(0..5)].clone();
             let to = if a == "send" { accounts[rng.gen_range(0..5)].clone() } else { from.clone() };
             let ncoins = rng.gen_range(0..4);
@@ -295,8 +378,10 @@ pub fn drive(n: usize, len: usize, out: &str) -> ! {
                 .map(|acc| json!([acc, denoms.iter().map(|d| json!([d, bal[acc][d] / unit, bal[acc][d] % unit])).collect::<Vec<_>>()]))
                 .collect();
             let supj: Vec<Value> = denoms.iter().map(|d| json!([d, sup[d] / unit, sup[d] % unit])).collect();
+            let meta = w.observe_meta(&denoms, &mut incons);
+            let metaj: Vec<Value> = denoms.iter().map(|d| json!([d, meta[d]])).collect();
             writeln!(f, "{}", json!({"ev":"op","a":a,"from":op["from"],"to":op["to"],"coins":op["coins"],
-                "ok":okv,"bal":balj,"supply":supj,"incons":incons})).unwrap();
+                "ok":okv,"bal":balj,"supply":supj,"meta":metaj,"incons":incons})).unwrap();
             events += 1;
         }
     }
